@@ -1,6 +1,7 @@
 package interpreter
 
 import (
+	"sync"
 	"time"
 
 	"github.com/krotik/common/datautil"
@@ -339,4 +340,45 @@ func VerifC15BreakpointBook() {
 		same = got[i] == want[i]
 	}
 	zz.Assert(same, "C15.suspends-exactly-at-the-breakpoints-left-active-by-the-commands")
+}
+
+var c15ConsoleCmds = []string{"break t:2", "disablebreak t:2", "rmbreak t:2", "rmbreak t", "status", "describe 7", "breakonstart false", "lockstate", "break u:1"}
+
+// VerifC15ConsoleRaces: a debug console (its own goroutine, as in the debug server) issues commands while a program
+// thread runs: unsynchronised access of the two to the debugger's own bookkeeping (the breakpoint table, flags, thread
+// states) is a data race - for the breakpoint map one that the Go runtime answers with a fatal "concurrent map read and
+// map write".  Races are found by the happens-before pass and confirmed with the race detector.
+func VerifC15ConsoleRaces() {
+	erp, _ := zzProvider()
+	vs := scope.NewScope(scope.GlobalScope)
+	dbg := NewECALDebugger(scope.NewScope(scope.GlobalScope))
+	erp.Debugger = dbg
+	dbg.BreakOnError(false)
+	ast, err := parser.ParseWithRuntime("t", "a := 1\nb := a + 1\nc := b + 1\n", erp)
+	zz.Assert(err == nil && ast.Runtime.Validate() == nil, "C15.setup")
+	if zz.Bool("breakpointSetBeforehand") {
+		dbg.HandleInput("break t:3")
+		dbg.HandleInput("disablebreak t:3")
+	}
+	c1 := zz.Choice("command1", len(c15ConsoleCmds))
+	c2 := zz.Choice("command2", len(c15ConsoleCmds))
+	zz.ReportHeapRaces()
+	zz.ScheduleEraser(zz.Param("P", 1))
+	var wg sync.WaitGroup
+	wg.Add(2)
+	go func() {
+		defer wg.Done() // a stopped thread leaves through runtime.Goexit
+		ast.Runtime.Eval(vs, make(map[string]interface{}), 7)
+	}()
+	go func() {
+		dbg.HandleInput(c15ConsoleCmds[c1])
+		dbg.HandleInput(c15ConsoleCmds[c2])
+		dbg.HandleInput("cont 7 resume") // in case the thread suspended at the breakpoint just set
+		dbg.StopThreads(0)
+		wg.Done()
+	}()
+	zz.Quiesce()
+	dbg.StopThreads(0)
+	wg.Wait()
+	zz.Reach("both-done")
 }
